@@ -4,6 +4,7 @@ import (
 	"fmt"
 	"go/token"
 	"go/types"
+	"math"
 	"sort"
 	"strings"
 
@@ -27,7 +28,7 @@ func init() {
 				"R5: the conversions that feed the servers, the cache and the connection limiter copy each validated setting into the constructor field of the same meaning (a wrong-field copy would put an unvalidated value where a validated one is assumed).",
 			NotCovered: "hazards other than the recognised ones (non-positive quantities, family bounds, division by zero); validation " +
 				"of lists, URLs and cross-references between sections; the environment variables.",
-			Rules: map[string]string{"C20-R1": "zero / negative rejection of every numeric setting", "C20-R2": "subnet key length family bounds",
+			Rules: map[string]string{"C20-R11": "newServerDNS accepts exactly the documented idle-timeout interval [0, MaxTCPIdleTimeout] (interval derived from the edges into the panic)", "C20-R1": "zero / negative rejection of every numeric setting", "C20-R2": "subnet key length family bounds",
 				"C20-R3": "section table completeness", "C20-R4": "divisor provenance", "C20-R5": "validated settings are copied into the constructor fields of the same meaning",
 				"C20-R8": "builder flags computed over all server groups accumulate (a later group cannot switch off what an earlier group needs, e.g. the profile database)",
 				"C20-R6": "DDR record validation: DoH port needs a path, hints must be of their address family"},
@@ -178,6 +179,13 @@ var c20Skip = map[string]string{
 
 func runC20(c *an.Ctx) {
 	cmdConversions(c, "C20-R5", nil, 30)
+	// ---- R11: the stream servers accept exactly the documented idle-timeout range [0, MaxTCPIdleTimeout]
+	c.Floor("C20-R11", 1)
+	if maxIdle, ok := c.ConstInt("dnsserver", "MaxTCPIdleTimeout"); ok {
+		c20PanicInterval(c, "C20-R11", "dnsserver.newServerDNS", "a TCP idle timeout", 0, maxIdle)
+	} else {
+		c.Und("C20-R11", "dnsserver.MaxTCPIdleTimeout", token.NoPos, "constant not found")
+	}
 	// ---- R10: the builder hands every validated setting to the component it configures
 	c.Floor("C20-R10", 40)
 	builderWiring(c, "C20-R10", map[string][]string{
@@ -740,4 +748,105 @@ func c20Accumulators(c *an.Ctx) {
 	if n == 0 {
 		c.Und("C20-R8", k+" flags", fn.Pos(), "no per-group flag assignment found in the loop")
 	}
+}
+
+// c20PanicInterval derives, from the conditional edges that lead into the
+// panic of constructor fnName, the interval of the checked value that is
+// accepted, and compares it with [lo, hi].  Every edge must compare the same
+// value with a constant (<, <=, >, >= in either operand order); anything else
+// is not recognised.
+func c20PanicInterval(c *an.Ctx, rule, fnName, what string, lo, hi int64) {
+	key := fnName + " accepts " + what + " in the documented range"
+	fn := c.Fn(fnName)
+	if fn == nil {
+		c.Und(rule, key, token.NoPos, "anchor not found")
+		return
+	}
+	c.Analysed(fnName)
+	var panics []*ssa.BasicBlock
+	for _, b := range fn.Blocks {
+		if len(b.Instrs) > 0 {
+			if _, ok := b.Instrs[len(b.Instrs)-1].(*ssa.Panic); ok {
+				panics = append(panics, b)
+			}
+		}
+	}
+	if len(panics) != 1 {
+		c.Und(rule, key, fn.Pos(), "expected one panic, found %d", len(panics))
+		return
+	}
+	accLo, accHi := int64(math.MinInt64), int64(math.MaxInt64)
+	var subject ssa.Value
+	n := 0
+	for _, p := range panics[0].Preds {
+		ifi, ok := p.Instrs[len(p.Instrs)-1].(*ssa.If)
+		if !ok {
+			c.Und(rule, key, fn.Pos(), "the panic is reached by an unconditional edge")
+			return
+		}
+		onTrue := p.Succs[0] == panics[0]
+		bo, ok := ifi.Cond.(*ssa.BinOp)
+		if !ok {
+			c.Und(rule, key, ifi.Pos(), "the range check is not a comparison with a constant (%s)", ifi.Cond.String())
+			return
+		}
+		op := bo.Op
+		x, y := bo.X, bo.Y
+		kv, isK := an.ConstInt(y)
+		if !isK {
+			// constant on the left: mirror
+			kv, isK = an.ConstInt(x)
+			x = y
+			switch op {
+			case token.LSS:
+				op = token.GTR
+			case token.GTR:
+				op = token.LSS
+			case token.LEQ:
+				op = token.GEQ
+			case token.GEQ:
+				op = token.LEQ
+			}
+		}
+		if !isK {
+			c.Und(rule, key, ifi.Pos(), "the range check is not a comparison with a constant (%s)", bo.String())
+			return
+		}
+		if !onTrue {
+			switch op {
+			case token.LSS:
+				op = token.GEQ
+			case token.GEQ:
+				op = token.LSS
+			case token.GTR:
+				op = token.LEQ
+			case token.LEQ:
+				op = token.GTR
+			}
+		}
+		if subject == nil {
+			subject = x
+		} else if subject != x {
+			c.Und(rule, key, ifi.Pos(), "the range checks compare different values")
+			return
+		}
+		n++
+		// the edge panics when "x op kv": the accepted range excludes it
+		switch op {
+		case token.LSS: // panics for x < kv: accept x >= kv
+			accLo = max(accLo, kv)
+		case token.LEQ:
+			accLo = max(accLo, kv+1)
+		case token.GTR: // panics for x > kv: accept x <= kv
+			accHi = min(accHi, kv)
+		case token.GEQ:
+			accHi = min(accHi, kv-1)
+		default:
+			c.Und(rule, key, ifi.Pos(), "unsupported comparison %s", op)
+			return
+		}
+	}
+	c.Check(n > 0 && accLo == lo && accHi == hi, rule, key, fn.Pos(),
+		fmt.Sprintf("accepted range [%d, %d]", lo, hi),
+		fmt.Sprintf("the constructor accepts [%d, %d] but the documented range is [%d, %d]: a boundary value is refused or an out-of-range one accepted", accLo, accHi, lo, hi))
 }
